@@ -2,6 +2,7 @@
 import importlib
 
 _MODULES = {
+    "C16": ("scen_c16", "C16"),
     "C17": ("scen_c17", "C17"),
 }
 
